@@ -34,6 +34,14 @@ pub fn check_ownership(t: &Torrent, o: &Outcome, stats: &mut HashMap<&'static st
                 }
             }
             EvKind::Mgr { kind, after, text, .. } => {
+                // assembling the output files starts only when every piece is verified and stored
+                if after.files_extracted && !prev.as_ref().map(|p| p.files_extracted).unwrap_or(false) {
+                    *stats.entry("extraction_starts_checked").or_default() += 1;
+                    let lacking: Vec<usize> = after.statuses.iter().enumerate().filter(|(_, s)| **s != Status::Have).map(|(i, _)| i).collect();
+                    if !lacking.is_empty() {
+                        return Some(Finding { sig: "C01:extraction-before-all-pieces-verified".into(), what: format!("the output files are assembled after {} {} while pieces {:?} are not verified and stored yet", kind, e.addr, lacking), at_seq: e.seq });
+                    }
+                }
                 if let Some(p) = &prev {
                     for i in 0..after.statuses.len() {
                         if after.statuses[i] == Status::Have && p.statuses[i] != Status::Have {
@@ -240,16 +248,31 @@ pub fn check_advertising(t: &Torrent, o: &Outcome, stats: &mut HashMap<&'static 
                 }
             }
         }
-        // Have frames: prefix, in order, of the completions since the handler was spawned
+        // Have frames: in completion order, each after its piece was verified; an announcement may be
+        // left out only for a piece the peer itself has advertised (telling a peer what it already
+        // has is optional; the property is about early, lost and overtaken announcements)
         let want: Vec<usize> = comps.iter().filter(|c| c.0 > spawn_seq).map(|c| c.1).collect();
         let haves: Vec<(u64, usize)> = conn_events.iter().filter_map(|e| match &e.kind { EvKind::Send { msg: Msg::Have(i), .. } => Some((e.seq, *i as usize)), _ => None }).collect();
-        for (k, (hseq, i)) in haves.iter().enumerate() {
-            *stats.entry("have_frames_checked").or_default() += 1;
-            if k >= want.len() || want[k] != *i {
-                let sig = if !comps.iter().any(|c| c.1 == *i && c.0 < *hseq) { "C11:have-before-verified" } else { "C11:have-out-of-order-or-duplicated" };
-                return Some(Finding { sig: sig.into(), what: format!("Have({}) is frame #{} of Have announcements to {}, completion order since it connected is {:?}", i, k, a, want), at_seq: *hseq });
+        let mut peer_has = vec![false; t.n()];
+        for e in &conn_events {
+            match &e.kind {
+                EvKind::PeerSent { msg: Some(Msg::Bitfield(b)), .. } => for (i, x) in bitfield_bits(b, t.n()).iter().enumerate() { if *x { peer_has[i] = true; } },
+                EvKind::PeerSent { msg: Some(Msg::Have(i)), .. } => if (*i as usize) < t.n() { peer_has[*i as usize] = true; },
+                _ => (),
             }
         }
+        let mut p = 0usize;
+        for (k, (hseq, i)) in haves.iter().enumerate() {
+            *stats.entry("have_frames_checked").or_default() += 1;
+            let mut q = p;
+            while q < want.len() && want[q] != *i && peer_has[want[q]] { q += 1; }
+            if q >= want.len() || want[q] != *i {
+                let sig = if !comps.iter().any(|c| c.1 == *i && c.0 < *hseq) { "C11:have-before-verified" } else { "C11:have-out-of-order-or-duplicated" };
+                return Some(Finding { sig: sig.into(), what: format!("Have({}) is frame #{} of Have announcements to {}, completion order since it connected is {:?} (next expected: #{})", i, k, a, want, p), at_seq: *hseq });
+            }
+            p = q + 1;
+        }
+        let undelivered: Vec<usize> = want[p.min(want.len())..].iter().copied().filter(|i| !peer_has[*i]).collect();
         // completeness at the end: peer's last choke-state message to us is Unchoke (sent > 1 s before the end)
         if !closed && sent_bf.is_some() {
             let last_state = conn_events.iter().rev().find_map(|e| match &e.kind { EvKind::PeerSent { msg: Some(Msg::Unchoke), .. } => Some((true, e.ms)), EvKind::PeerSent { msg: Some(Msg::Choke), .. } => Some((false, e.ms)), _ => None });
@@ -257,8 +280,8 @@ pub fn check_advertising(t: &Torrent, o: &Outcome, stats: &mut HashMap<&'static 
             if let Some((true, ms)) = last_state {
                 if ms + 1_000 < end_ms && last_comp_ms + 1_000 < end_ms {
                     *stats.entry("unchoked_connections_checked_for_completeness").or_default() += 1;
-                    if haves.len() != want.len() {
-                        return Some(Finding { sig: "C11:deferred-have-not-delivered".into(), what: format!("{} unchoked us at t={}ms; {} pieces were completed since it connected ({:?}) but only {} Have frames were sent by the end (t={}ms)", a, ms, want.len(), want, haves.len(), end_ms), at_seq: u64::MAX });
+                    if !undelivered.is_empty() {
+                        return Some(Finding { sig: "C11:deferred-have-not-delivered".into(), what: format!("{} unchoked us at t={}ms; {} pieces were completed since it connected ({:?}) but only {} Have frames were sent by the end (t={}ms); never announced: {:?}", a, ms, want.len(), want, haves.len(), end_ms, undelivered), at_seq: u64::MAX });
                     }
                     if haves.len() > 0 && conn_events.iter().any(|e| matches!(&e.kind, EvKind::PeerSent { msg: Some(Msg::Choke), .. })) { *stats.entry("connections_with_deferred_haves").or_default() += 1; }
                 }
@@ -310,9 +333,90 @@ pub fn gen_scenario_c11(r: &mut Rng, seed: u64) -> Scenario {
         peers.push(PeerSpec { addr: addr(k), id: peer_id(k), entry: if incoming { Entry::Incoming { at_ms: at } } else { Entry::Dialled { from_announce: 0 } }, make: Box::new(move |nth| if nth > 1 { None } else { Some(scripted(sc.clone(), 10_000_000, false)) }), chunk: *r.pick(&[0usize, 0, 3]), pipe: 1 << 20 });
     }
     let failpoints = if r.chance(1, 2) { Some(r.next()) } else { None };
-    let desc = json!({"seed": seed, "piece_length": torrent.piece_len, "pieces": n, "failpoints": failpoints.is_some(), "peers": pdesc});
+    // fault on disk (as in C01): one piece cannot be stored because its file name is occupied by
+    // a non-empty directory; it must then never be announced
+    let obstacle = if r.chance(1, 8) { Some(r.usize(n)) } else { None };
+    let desc = json!({"seed": seed, "piece_length": torrent.piece_len, "pieces": n, "failpoints": failpoints.is_some(), "piece_file_name_occupied_by_directory": obstacle, "peers": pdesc});
+    let pre: Option<Box<dyn FnOnce(&std::path::Path)>> = obstacle.map(|i| { let name = torrent.piece_file_name(i); Box::new(move |dir: &std::path::Path| { let d = dir.join(&name); let _ = std::fs::create_dir_all(&d); let _ = std::fs::write(d.join("occupied"), b"x"); }) as Box<dyn FnOnce(&std::path::Path)> });
     // run for a fixed virtual time after which everything is quiescent
-    Scenario { cfg: SimCfg { torrent, peers, tracker: vec![], failpoints, max_virtual_ms: 110_000, stop_on_extract: true, linger_ms: 25_000, disk_on: disk_on_ownership, seed, pre: None, tracker_fn: None, driver: None }, desc }
+    Scenario { cfg: SimCfg { torrent, peers, tracker: vec![], failpoints, max_virtual_ms: 110_000, stop_on_extract: true, linger_ms: 25_000, disk_on: disk_on_ownership, seed, pre, tracker_fn: None, driver: None }, desc }
+}
+
+
+/// Interested downloader that, once unchoked, asks for more data than its socket buffers hold and
+/// does not read for `pause_ms`; afterwards it reads everything, unchokes us and stays.
+pub fn pausing_reader(id: [u8; 20], incoming: bool, pause_ms: u64, nreq: usize) -> crate::sim::Behaviour {
+    Box::new(move |mut io: crate::sim::PeerIo| Box::pin(async move {
+        let t = io.torrent.clone();
+        if incoming { if !io.send(&Msg::handshake(&t.info_hash(), &id)).await { return; } }
+        match io.recv_within(400_000).await { Ok(Some(Msg::Handshake { .. })) => (), _ => { io.close(); return; } }
+        if !incoming { if !io.send(&Msg::handshake(&t.info_hash(), &id)).await { return; } }
+        if !io.send(&Msg::Bitfield(bitfield_bytes(&vec![false; t.n()]))).await { return; }
+        if !io.send(&Msg::Interested).await { return; }
+        let mut owned: Vec<usize> = vec![];
+        let mut unchoked = false;
+        let deadline = io.log.now_ms() + 60_000;
+        while io.log.now_ms() < deadline && !(unchoked && owned.len() >= 2) {
+            match io.recv_within(deadline - io.log.now_ms()).await {
+                Ok(Some(Msg::Unchoke)) => unchoked = true,
+                Ok(Some(Msg::Choke)) => unchoked = false,
+                Ok(Some(Msg::Bitfield(b))) => owned = bitfield_bits(&b, t.n()).iter().enumerate().filter(|x| *x.1).map(|x| x.0).collect(),
+                Ok(Some(Msg::Have(i))) => owned.push(i as usize),
+                Ok(Some(_)) => (),
+                Ok(None) => return,
+                Err(()) => break,
+            }
+        }
+        if unchoked && !owned.is_empty() {
+            let mut k = 0;
+            'outer: loop {
+                for i in &owned {
+                    for (b, l) in crate::wire::tiling(t.piece_len_of(*i)) {
+                        if k >= nreq { break 'outer; }
+                        if !io.send(&Msg::Request(*i as u32, b, l)).await { return; }
+                        k += 1;
+                    }
+                }
+            }
+            io.log.note(&io.addr, format!("pausing reader: {} requests sent, not reading for {} ms", k, pause_ms));
+            tokio::time::sleep(std::time::Duration::from_millis(pause_ms)).await;
+            io.log.note(&io.addr, "pausing reader: reading again");
+        }
+        if !io.send(&Msg::Unchoke).await { return; }
+        loop { match io.recv_within(10_000_000).await { Ok(Some(_)) => (), _ => return } }
+    }))
+}
+
+/// Family: many pieces complete on other connections while one connection's task cannot get its
+/// writes through for a while; every announcement still has to reach that peer in the end.
+pub fn gen_scenario_c11_burst(r: &mut Rng, seed: u64) -> Scenario {
+    let piece_len = *r.pick(&[64usize, 100, 257]);
+    let n = r.range(40, 90) as usize;
+    let total = (n - 1) * piece_len + r.range(1, piece_len as u64) as usize;
+    let content = crate::torrent::distinct_content(r, total, piece_len);
+    let torrent = Rc::new(Torrent::build(piece_len, "out.bin", vec![("out.bin".into(), total)], true, content, "http://sim.invalid/announce"));
+    let early = r.range(3, 6) as usize;
+    let mut s1 = crate::sim::peers::SeederCfg::honest(peer_id(0), (0..n).map(|i| i < early).collect());
+    s1.unchoke_after_ms = Some(0);
+    s1.idle_close_ms = 10_000_000;
+    let mut s2 = crate::sim::peers::SeederCfg::honest(peer_id(1), vec![true; n]);
+    let burst_at = r.range(6_000, 12_000);
+    s2.unchoke_after_ms = Some(burst_at);
+    s2.idle_close_ms = 10_000_000;
+    let (a, b) = (s1.clone(), s2.clone());
+    let mut peers = vec![
+        PeerSpec { addr: addr(0), id: peer_id(0), entry: Entry::Dialled { from_announce: 0 }, make: Box::new(move |nth| if nth > 1 { None } else { Some(seeder(a.clone())) }), chunk: 0, pipe: 1 << 20 },
+        PeerSpec { addr: addr(1), id: peer_id(1), entry: Entry::Dialled { from_announce: 0 }, make: Box::new(move |nth| if nth > 1 { None } else { Some(seeder(b.clone())) }), chunk: 0, pipe: 1 << 20 },
+    ];
+    let incoming = r.chance(1, 2);
+    let pause = r.range(15_000, 100_000);
+    let nreq = r.range(6, 20) as usize;
+    let pipe = *r.pick(&[64usize, 256, 600]);
+    peers.push(PeerSpec { addr: addr(2), id: peer_id(2), entry: if incoming { Entry::Incoming { at_ms: r.range(500, 2_000) } } else { Entry::Dialled { from_announce: 0 } }, make: Box::new(move |nth| if nth > 1 { None } else { Some(pausing_reader(peer_id(2), incoming, pause, nreq)) }), chunk: 0, pipe });
+    let desc = json!({"seed": seed, "family": "burst-of-completions-while-one-connection-cannot-write", "piece_length": piece_len, "pieces": n, "peers": [
+        {"addr": addr(0), "persona": "seeder", "pieces": format!("the first {}", early)}, {"addr": addr(1), "persona": "seeder", "pieces": "all", "unchokes_at_ms": burst_at},
+        {"addr": addr(2), "persona": "pausing-reader", "incoming": incoming, "requests": nreq, "pause_ms": pause, "pipe_bytes": pipe}]});
+    Scenario { cfg: SimCfg { torrent, peers, tracker: vec![], failpoints: None, max_virtual_ms: 200_000, stop_on_extract: true, linger_ms: 150_000, disk_on: disk_on_ownership, seed, pre: None, tracker_fn: None, driver: None }, desc }
 }
 
 pub fn run_c11(ctx: &Ctx) -> Report {
@@ -325,7 +429,7 @@ pub fn run_c11(ctx: &Ctx) -> Report {
     for k in 0..n {
         let seed = ctx.scenario_seed(r.next());
         let mut sr = Rng::new(seed);
-        let sc = gen_scenario_c11(&mut sr, seed);
+        let sc = if sr.chance(1, 10) { gen_scenario_c11_burst(&mut sr, seed) } else { gen_scenario_c11(&mut sr, seed) };
         let t = sc.cfg.torrent.clone();
         let desc = sc.desc.clone();
         rep.evaluations += 1;
